@@ -3,10 +3,24 @@
 import json, sys, subprocess, os
 c, n = sys.argv[1], sys.argv[2]
 props = {json.loads(l)['id']: json.loads(l) for l in open('/verif/properties.jsonl')}
-T = open('/tmp/seed/prompts/TEMPLATE.txt').read()
+T = open(os.path.join(os.path.dirname(os.path.abspath(__file__)), 'seed_prompt_template.txt')).read()
+os.makedirs('/tmp/seed/prompts', exist_ok=True)
 wt = '/tmp/seed/%s-%s' % (c, n)
 subprocess.run(['git', '-C', '/repo', 'worktree', 'add', '-q', '--detach', wt, 'HEAD'], check=True)
 p = props[c]
+import glob
+prior = []
+for d in sorted(glob.glob('/verif/seeded/%s-*' % c)):
+    try:
+        m = json.load(open(d + '/meta.json'))
+        prior.append('  - (%s) %s' % (', '.join(m.get('files_changed') or []), ' '.join((m.get('summary') or '').split())[:260]))
+    except Exception:
+        pass
 t = T.format(WT=wt, OUT=wt + '-out', C=c, TITLE=p['title'], STATEMENT=p['statement'], QUANT=p['quantifier']['text'])
+if prior:
+    t += ("\n\nOther reviewers have already proposed the changes summarised below. Yours must be substantively different from each of them "
+          "(a different code site AND a different mechanism; prefer parts of the code base and input formats they did not touch, "
+          "and prefer changes whose effect shows only through an interaction: two files, a caller and a callee, state kept between two calls, an arithmetic edge):\n"
+          + "\n".join(prior))
 open('/tmp/seed/prompts/%s-%s.txt' % (c, n), 'w').write(t)
 print('/tmp/seed/prompts/%s-%s.txt' % (c, n))
